@@ -2178,6 +2178,15 @@ def _is_coroutine_def(node):
     return False
 
 
+def _b_dict(I, args, kwargs, fr):
+    """dict(d): a shallow copy (supported for the string-keyed dict objects and for empty dict())"""
+    if not args and not kwargs:
+        return I.st.new_obj('__strdict__', {})
+    if len(args) == 1 and not kwargs and isinstance(args[0], VObj) and I.st.heap[args[0].loc].cls == '__strdict__':
+        return I.st.new_obj('__strdict__', dict(I.st.heap[args[0].loc].fields))
+    raise Unsupported('dict(...) of this argument')
+
+
 def _b_set(I, args, kwargs, fr):
     """set(seq): membership is `contains`; the cardinality is not tracked (None) unless the sequence is empty"""
     if not args:
@@ -2210,7 +2219,7 @@ BUILTINS = {
     'any': _b_any, 'range': _b_range, 'float': _b_float, 'int': _b_int, 'bool': _b_bool,
     'deque': _b_deque, 'getattr': _b_getattr, 'reversed': _b_reversed,
     'next': _b_not_impl('next'), 'chain': _b_not_impl('chain'), 'sorted': _b_not_impl('sorted'),
-    'set': _b_set, 'dict': _b_not_impl('dict'), 'enumerate': _b_not_impl('enumerate'),
+    'set': _b_set, 'dict': _b_dict, 'enumerate': _b_not_impl('enumerate'),
     'time': _b_not_impl('time'), 'zip': _b_not_impl('zip'), 'sum': _b_not_impl('sum'),
     'str': _b_not_impl('str'), 'iter': _b_iter, 'id': _b_not_impl('id'),
     'hasattr': _b_not_impl('hasattr'), 'super': None, '__builtins__': None,
